@@ -93,7 +93,7 @@ def team_cases(draw):
         pool += draw(st.lists(st.sampled_from(INTERNAL_VARS), min_size=1, max_size=3, unique=True))
     pool += draw(st.lists(st.sampled_from(OTHER_VARS), max_size=1))
 
-    no_base = draw(st.sampled_from([False] * 13 + [True]))  # ~7 %: nobody references a config base -> documented error
+    no_base = draw(st.sampled_from([False] * 9 + [True]))  # ~8 % after exclusions: nobody references a config base -> documented error
 
     bases = {}
     for b in base_names:
@@ -117,6 +117,8 @@ def team_cases(draw):
             "vars": draw(_vars(pool, 3)),
             "vars_section": True,
             "style": draw(st.integers(0, 3)),
+            # how the list of bases is written: "a,b" as in rally-teams, or with a blank next to the comma
+            "sep": draw(st.sampled_from([","] * 30 + [", ", " ,"])),
         }
 
     n_sel = draw(st.sampled_from([1, 2, 2, 3, 3, 4]))
@@ -244,6 +246,8 @@ def team_cases(draw):
         "home_files": draw(st.lists(st.sampled_from(["logs/es.log", "plugins/p/x.jar", "config/elasticsearch.keystore.tmp", "data-not/z"]), max_size=3, unique=True)),
         "symlink_in_data": draw(st.booleans()),
         "symlink_in_home": draw(st.booleans()),
+        # the first effective data path that is not inside the installation is a symbolic link to a directory on another volume
+        "data_symlink": draw(st.sampled_from([False] * 7 + [True])),
     }
 
     return {
